@@ -27,8 +27,9 @@
          good filters saved by FiltersSet.tosieve the parsed script's filters -- out of their `if false` wrapper
          when disabled -- are read back as they were defined (C19_reloaded_read_back; uses that the tree of a
          script of the grammar is determined by the script, sieve/WfFun.v).
-   Not proved: get_filter_actions on reloaded sets; address conditions, notsize, values with commas (known
-   findings).  These are evaluated on the implementation and, for the model, by the differential runs. *)
+         The same for get_filter_actions on parser trees and on reloaded sets (C19_parsed_tree_actions,
+         C19_reloaded_read_back_full): actions with positional strings and value-less tags.
+   Not proved: address conditions, notsize, values with commas (known findings).  These are evaluated on the implementation and, for the model, by the differential runs. *)
 From Coq Require Import String.
 From Coq Require Import List NArith Bool Arith.
 From SV Require Import Bytes Lexer Text TextFacts.
@@ -59,6 +60,48 @@ Theorem C19_reloaded_read_back :
       (combine sfs defs) nps.
 Proof. exact ReadReload.reload_read_back. Qed.
 Print Assumptions C19_reloaded_read_back.
+
+(* the same with get_filter_actions: conditions, match type and actions of every filter of the reloaded set are read back as they were defined *)
+Theorem C19_reloaded_read_back_full :
+  forall (np dp : bytes) (loaded : list bytes) (fuel : nat) (reqs : list bytes)
+    (sfs : list sfilter) (defs : list fdef),
+  sfs <> [] ->
+  kreqs reqs ->
+  Forall (sf_ok np dp reqs fuel) sfs ->
+  4 <= fuel ->
+  Forall2 def_ok sfs defs ->
+  Forall (fun d : fdef => Forall ract_ok (def_acts d)) defs ->
+  exists (text : bytes) (ns nps : list node),
+    render_set gen_tables loaded fuel np dp
+      {| bs_requires := reqs; bs_filters := map sf_bf sfs |} = BOk text /\
+    parse gen_tables text = Accept ns /\
+    match reqs with
+    | [] => ns = nps
+    | _ :: _ => ns = req_pnode reqs :: nps
+    end /\
+    Forall2
+      (fun (xd : sfilter * fdef) (n : node) =>
+       exists flt : node, got (sf_dis (fst xd)) n flt /\ read_ok_full fuel (snd xd) flt)
+      (combine sfs defs) nps.
+Proof. exact ReadReload.reload_read_back_full. Qed.
+Print Assumptions C19_reloaded_read_back_full.
+
+(* get_filter_actions on the tree the parser builds for the script of a documented filter *)
+Theorem C19_parsed_tree_actions :
+  forall (conds : list dcond) (acts : list dact) (anyof : bool) (L : list bytes)
+    (prev : option bytes) (fuel : nat),
+  conds <> [] ->
+  Forall cond_ok conds ->
+  Forall rcond_ok conds ->
+  Forall act_ok acts ->
+  Forall ract_ok acts ->
+  (forall e : bytes, In e (fexts conds acts) -> mem e L = true) ->
+  4 <= fuel ->
+  exists np : node,
+    CompleteTree.wf_cmd gen_tables L prev (std_fcmd conds acts anyof) np L /\
+    std_get_actions fuel np = ROk (map (fun a : dact => map fv_rv (atuple a)) acts).
+Proof. exact ReadReload.factory_parsed_actions. Qed.
+Print Assumptions C19_parsed_tree_actions.
 
 (* the tree the PARSER builds for the script of a documented filter (string lists stored as lists: the list branch of args_as_tuple) is read back exactly as supplied *)
 Theorem C19_parsed_tree_read_back :
